@@ -103,12 +103,14 @@ def run(tier, seed):
             if len(bb) > 40 or not bb:
                 continue
             base = {"op": "de", "schema": {"nodes": G}, "bytes": bb}
-            cmds.append(dict(base, id=len(cmds), reader={"kind": "slice"}, _grp=(scn["sid"], tuple(bb), len(tail))))
+            if len(cmds) % 5 == 4:
+                base["ignore"] = [[]]          # a target that ignores the whole value (blocks with a byte size are then jumped over)
+            cmds.append(dict(base, id=len(cmds), reader={"kind": "slice"}, _grp=(scn["sid"], tuple(bb), len(tail), "ignore" in base)))
             parts = partitions_for(len(bb), rng, tier)
             if len(parts) > 24:
                 parts = rng.sample(parts, 24)
             for p in parts:
-                cmds.append(dict(base, id=len(cmds), reader={"kind": "chunks", "sched": p}, _grp=(scn["sid"], tuple(bb), len(tail))))
+                cmds.append(dict(base, id=len(cmds), reader={"kind": "chunks", "sched": p}, _grp=(scn["sid"], tuple(bb), len(tail), "ignore" in base)))
     send = [{k: v for k, v in c.items() if k != "_grp"} for c in cmds]
     obs = common.run_harness(send)
     groups = {}
